@@ -23,21 +23,21 @@ ENV["CARGO_TERM_COLOR"] = "never"
 
 CONC = ("hlmon", dict(runner="conc"))
 PROPS = {
-    "C01": dict(level="exploration", lanes=[CONC, ("hlmon", dict(runner="seqfam")), ("hlmon", dict(runner="ownedconc")), ("hlmon", dict(runner="conc_fault"))]),
+    "C01": dict(level="exploration", lanes=[CONC, ("hlmon", dict(runner="seqfam")), ("hlmon", dict(runner="ownedconc")), ("hlmon", dict(runner="conc_fault")), ("hlmon", dict(runner="blockfam")), ("hlmon", dict(runner="tuplefam"))]),
     "C02": dict(level="exploration", lanes=[
         CONC, ("hlmon", dict(runner="conc_panic")), ("hlmon", dict(runner="blockfam")), ("hlmon", dict(runner="tuplefam")), ("hlmon", dict(runner="racefam")),
-        ("miri", dict(runner="racefam", mode="seeds", seeds_quick=16, seeds_thorough=256, canary="canary_race")),
+        ("hlmon", dict(runner="seqfam")), ("hlmon", dict(runner="tryfam")), ("hlmon", dict(runner="panicfam")), ("miri", dict(runner="racefam", mode="seeds", seeds_quick=16, seeds_thorough=256, canary="canary_race")),
         ("tsan", dict(runner="racefam", thorough_only=True)),
     ]),
-    "C03": dict(level="exploration", lanes=[("hlmon", dict(runner="seqfam")), ("hlmon", dict(runner="blockfam")), ("hlmon", dict(runner="tuplefam")), ("hlmon", dict(runner="faultfam")), ("hlmon", dict(runner="conc_fault")), CONC]),
-    "C04": dict(level="exploration", lanes=[("hlmon", dict(runner="tryfam")), ("hlmon", dict(runner="blockfam")), ("hlmon", dict(runner="tuplefam")), ("hlmon", dict(runner="poisonfam")), CONC]),
-    "C05": dict(level="exploration", lanes=[CONC, ("hlmon", dict(runner="seqfam")), ("hlmon", dict(runner="tryfam")), ("hlmon", dict(runner="blockfam")), ("hlmon", dict(runner="tuplefam")), ("hlmon", dict(runner="conc_panic")), ("hlmon", dict(runner="faultfam")), ("hlmon", dict(runner="conc_fault"))]),
-    "C06": dict(level="exploration", lanes=[("hlmon", dict(runner="keyfam"))]),
+    "C03": dict(level="exploration", lanes=[("hlmon", dict(runner="seqfam")), ("hlmon", dict(runner="blockfam")), ("hlmon", dict(runner="tuplefam")), ("hlmon", dict(runner="faultfam")), ("hlmon", dict(runner="conc_fault")), CONC, ("hlmon", dict(runner="tryfam")), ("hlmon", dict(runner="panicfam")), ("hlmon", dict(runner="poisonfam")), ("hlmon", dict(runner="keyfam"))]),
+    "C04": dict(level="exploration", lanes=[("hlmon", dict(runner="tryfam")), ("hlmon", dict(runner="blockfam")), ("hlmon", dict(runner="tuplefam")), ("hlmon", dict(runner="poisonfam")), CONC, ("hlmon", dict(runner="seqfam")), ("hlmon", dict(runner="orderfam")), ("hlmon", dict(runner="dupfam")), ("hlmon", dict(runner="panicfam"))]),
+    "C05": dict(level="exploration", lanes=[CONC, ("hlmon", dict(runner="seqfam")), ("hlmon", dict(runner="tryfam")), ("hlmon", dict(runner="blockfam")), ("hlmon", dict(runner="tuplefam")), ("hlmon", dict(runner="conc_panic")), ("hlmon", dict(runner="faultfam")), ("hlmon", dict(runner="conc_fault")), ("hlmon", dict(runner="panicfam")), ("hlmon", dict(runner="poisonfam")), ("hlmon", dict(runner="nonacqfam")), ("hlmon", dict(runner="orderfam"))]),
+    "C06": dict(level="exploration", lanes=[("hlmon", dict(runner="keyfam")), ("hlmon", dict(runner="seqfam")), ("hlmon", dict(runner="blockfam")), ("hlmon", dict(runner="conc"))]),
     "C07": dict(level="exploration", lanes=[("hlmon", dict(runner="dupfam")), ("corpus", dict()), ("matrix", dict())]),
     "C08": dict(level="exploration", lanes=[("hlmon", dict(runner="orderfam")), ("hlmon", dict(runner="ownedconc"))]),
-    "C09": dict(level="exploration", lanes=[("hlmon", dict(runner="conc_retry")), ("hlmon", dict(runner="blockfam"))]),
-    "C10": dict(level="exploration", lanes=[("hlmon", dict(runner="poisonfam")), ("hlmon", dict(runner="poisonsoak")), ("hlmon", dict(runner="conc_panic"))]),
-    "C11": dict(level="fault_enumeration", lanes=[("hlmon", dict(runner="panicfam")), ("hlmon", dict(runner="conc_panic")), ("hlmon", dict(runner="seqfam"))]),
+    "C09": dict(level="exploration", lanes=[("hlmon", dict(runner="conc_retry")), ("hlmon", dict(runner="blockfam")), ("hlmon", dict(runner="seqfam")), ("hlmon", dict(runner="conc"))]),
+    "C10": dict(level="exploration", lanes=[("hlmon", dict(runner="poisonfam")), ("hlmon", dict(runner="poisonsoak")), ("hlmon", dict(runner="conc_panic")), ("hlmon", dict(runner="nonacqfam"))]),
+    "C11": dict(level="fault_enumeration", lanes=[("hlmon", dict(runner="panicfam")), ("hlmon", dict(runner="conc_panic")), ("hlmon", dict(runner="seqfam")), ("hlmon", dict(runner="poisonfam"))]),
     "C12": dict(level="fault_enumeration", lanes=[("hlmon", dict(runner="faultfam")), ("hlmon", dict(runner="conc_fault"))]),
     "C13": dict(level="exploration", lanes=[("hlmon", dict(runner="tryfam")), ("hlmon", dict(runner="tuplefam"))]),
     "C14": dict(level="other", lanes=[("corpus", dict()), ("matrix", dict()), ("hlmon", dict(runner="keyfam"))],
@@ -49,7 +49,7 @@ PROPS = {
         ("miri", dict(runner="dropfam", shards=8, canary="canary_leak")),
         ("memcheck", dict(runner="dropfam", thorough_only=True)),
     ]),
-    "C17": dict(level="exploration", lanes=[("hlmon", dict(runner="nonacqfam")), CONC]),
+    "C17": dict(level="exploration", lanes=[("hlmon", dict(runner="nonacqfam")), CONC, ("hlmon", dict(runner="seqfam")), ("hlmon", dict(runner="blockfam"))]),
 }
 
 ASSUMPTIONS = {
